@@ -185,16 +185,46 @@ impl<'a> JsonTokenizer<'a> {
 
         while let Ok(c) = self.read() {
             if escape {
-                // Handle escape sequences
+                // Handle escape sequences (all of RFC 8259)
                 match c {
                     '\\' => result.push('\\'),
                     '"' => result.push('"'),
+                    '/' => result.push('/'),
                     'n' => result.push('\n'),
-                    // 't' => result.push('\t'),
-                    // 'r' => result.push('\r'),
-                    // Add other escape sequences as needed
-                    // _ => result.push(c), // Push the character as is if unknown escape
-                    _ => {}
+                    't' => result.push('\t'),
+                    'r' => result.push('\r'),
+                    'b' => result.push('\u{0008}'),
+                    'f' => result.push('\u{000C}'),
+                    'u' => {
+                        let mut unit = self.read_hex4()?;
+                        // A high surrogate must be followed by an escaped low surrogate
+                        if (0xD800..0xDC00).contains(&unit) {
+                            let (b, u) = (self.read()?, self.read()?);
+                            let low = self.read_hex4()?;
+                            if b != '\\' || u != 'u' || !(0xDC00..0xE000).contains(&low) {
+                                return Err(io::Error::new(
+                                    io::ErrorKind::InvalidData,
+                                    "Invalid surrogate pair in string escape",
+                                ));
+                            }
+                            unit = 0x10000 + ((unit - 0xD800) << 10) + (low - 0xDC00);
+                        }
+                        match char::from_u32(unit) {
+                            Some(ch) => result.push(ch),
+                            None => {
+                                return Err(io::Error::new(
+                                    io::ErrorKind::InvalidData,
+                                    "Invalid \\u escape in string",
+                                ));
+                            }
+                        }
+                    }
+                    _ => {
+                        return Err(io::Error::new(
+                            io::ErrorKind::InvalidData,
+                            format!("Invalid escape sequence '\\{c}' in string"),
+                        ));
+                    }
                 }
                 escape = false;
             } else if c == '\\' {
@@ -215,6 +245,17 @@ impl<'a> JsonTokenizer<'a> {
                 "Unterminated string",
             ))
         }
+    }
+
+    fn read_hex4(&mut self) -> io::Result<u32> {
+        let mut value = 0;
+        for _ in 0..4 {
+            let digit = self.read()?.to_digit(16).ok_or_else(|| {
+                io::Error::new(io::ErrorKind::InvalidData, "Invalid \\u escape in string")
+            })?;
+            value = value * 16 + digit;
+        }
+        Ok(value)
     }
 
     fn read_until_separator(&mut self) -> io::Result<String> {
